@@ -526,7 +526,7 @@ def gen_urep(tier, rng):
                     h = lambda op: f"{op} {head}"
                     out.append(h("u_ctype"))
                     out.append(h("u_limits"))
-                    k = 5 if quick else 14
+                    k = 5 if quick else 10
                     v1, v2 = uvalues(r1, rng, k), uvalues(r2, rng, k)
                     pairs = {(x, y) for x in v1 for y in v2}
                     # equal values and neighbours
